@@ -180,7 +180,9 @@ CHECKS["C01"] = {
             "valid quote with every byte symbolic and an abstract three-certificate chain with symbolic attributes; asserted: err == nil implies "
             "ECDSA_P256(key halves, SHA256(harness's own serialisation of header||body), signature halves), report data = SHA256(key||auth) || 0^32, "
             "and CertSig(leaf key, ECDSAWithSHA256, harness's own QE report bytes, QE signature halves). H01g: a two-quote history (a second, different "
-            "quote verified after an accepted first one, fresh options) - the links must hold for the second quote's own bytes and leaf key. H01h: the "
+            "quote verified after an accepted first one, fresh options) - the links must hold for the second quote's own bytes and leaf key. H01i: ONE message and ONE options value: after an "
+            "accepted verification a region of the message (report data, header user data, attestation key, QE report, auth data) is replaced in place and the message "
+            "verified again - the links must hold for what it now contains. H01h: the "
             "message's integer fields are unconstrained uint32 (not pre-truncated to their wire width): an accepted message has no bit outside the wire format",
     "bounds": {"qe_auth_data_length": "{0, 1, 32, 33} quick, + {31, 64} thorough", "trusted_pool": "nil / 1 / 2 certificates", "history": "2 verifications"},
     "outside": ["that ECDSA / SHA-256 are unforgeable / collision free (the 'no bit can change' corollary is cryptographic)"],
@@ -200,7 +202,7 @@ CHECKS["C02"] = {
             "crypto/x509's error types); H02h: a second verification with OTHER configured roots after an accepted first one is anchored in its own pool; "
             "RootOfTrustToOptions / getTrustedRoots: pool = exactly the listed certificates, error iff a bundle is unreadable or empty (blank and white-space "
             "inline bundles included)",
-    "bounds": {"pem_blocks": "2..4", "trusted_pool": "nil, empty, 1, 2 certificates", "bundles": "<= 2 files + <= 2 inline, <= 2 certificates each", "history": "2 verifications"},
+    "bounds": {"pem_blocks": "2..4 (5 thorough)", "trusted_pool": "nil, empty, 1, 2 certificates (3 thorough)", "bundles": "<= 2 files + <= 2 inline, <= 2 certificates each", "history": "2-3 verifications, fresh options or the same options value with TrustedRoots replaced"},
     "outside": ["Go's path builder itself (contract stub)", "non-PEM text that encoding/pem skips before or between blocks"],
     "assumptions": PKI_ASSUME,
 }
@@ -300,7 +302,7 @@ CHECKS["C16"] = {
     "bounds": {"tcb_levels": "1", "qe_auth_data": "16 / 32 bytes", "spare_capacity": "16..48 bytes (symbolic contents)"},
     "outside": ["interleavings are not explored: absence of shared writes (write-set argument, DESIGN.md C16) is what rules out data races",
                 "writes inside library code behind stubs (assumed not to write to their arguments)", "logger's own synchronisation"],
-    "assumptions": PKI_ASSUME + ["Go's append writes in place iff the result fits the capacity (solver-decided per call)"],
+    "assumptions": PKI_ASSUME + ["Go's append writes in place iff the result fits the capacity (solver-decided per call)", "package-level memory may be written only inside sync.Once.Do or between Mutex.Lock and Unlock; sync.Map / sync.Pool operations are goroutine-safe by contract (not checked further)"],
 }
 
 CHECKS["C18"] = {
